@@ -6,6 +6,7 @@ import (
 	"encoding/csv"
 	"encoding/json"
 	"fmt"
+	"math"
 	"strconv"
 	"strings"
 	"unicode"
@@ -224,14 +225,63 @@ var allFormats = []rag.ExportFormat{rag.ExportFormatJSONL, rag.ExportFormatJSON,
 
 // ---- batches -------------------------------------------------------------------------------
 
+// genWideBatchSize draws a batch size from the whole positive int range rather than from the
+// neighbourhood of the collection length: a batch size is any positive int, and one at least as
+// large as the collection ("no limit") must give a single batch holding every chunk.  The
+// classes are the places where arithmetic on (size, n) changes regime: just above n, around
+// every power of two, around the 32-bit limits, around MaxInt/k for small k (k*size leaves the
+// int range for k+1 batches), the top of the range (n+size leaves it), and uniform draws.
+func genWideBatchSize(r *hx.Rng, n int) (int, string) {
+	d := r.Range(-2, 2)
+	var size int
+	var class string
+	switch r.Intn(8) {
+	case 0:
+		size, class = n+r.Range(0, 40), "above-n"
+	case 1:
+		size, class = 1<<uint(r.Range(4, strconv.IntSize-2))+d, "pow2"
+	case 2:
+		size, class = hx.Pick(r, []int{math.MaxInt32, math.MaxInt32 + 1, math.MaxUint16, math.MaxInt >> 1})+d, "word-limit"
+	case 3:
+		size, class = math.MaxInt/r.Range(2, n+3)+d, "maxint-over-k"
+	case 4, 5:
+		// the top of the range, on both sides of MaxInt-n
+		size, class = math.MaxInt-r.Intn(n+4), "maxint-minus-k"
+		if r.Chance(1, 3) {
+			size = math.MaxInt
+		}
+	case 6:
+		size, class = int(r.U64()>>(64-strconv.IntSize+1)), "uniform"
+	default:
+		size, class = int(r.U64()>>(64-strconv.IntSize+1))>>uint(r.Intn(strconv.IntSize-1)), "log-uniform"
+	}
+	if size < 1 {
+		size = 1
+	}
+	return size, class
+}
+
 func checkBatches(c *hx.Ctx, kase caseID, r *hx.Rng, chunks []*rag.Chunk) {
-	kase.What = "batch"
 	n := len(chunks)
 	size := r.Range(1, n+2)
 	if r.Chance(1, 4) {
 		size = 1
 	}
 	cfg := genConfig(r, hx.Pick(r, allFormats))
+	runBatches(c, kase, "batch", size, cfg, chunks, true)
+	// the same collection and configuration under a batch size from the whole int range
+	// (a forked generator: the draws of the rest of the case do not move)
+	wide, class := genWideBatchSize(r.Fork(0xB7), n)
+	runBatches(c, kase, "batch-wide", wide, cfg, chunks, false)
+	c.Count("batch-size-" + class)
+}
+
+// runBatches: one BatchExporter.Export of `chunks` in batches of `size`; the batches delivered to
+// the callback must be the consecutive runs of `size` chunks (the last one possibly shorter)
+// that cover the collection, each carrying the export of exactly its chunks.
+func runBatches(c *hx.Ctx, kase caseID, what string, size int, cfg rag.ExportConfig, chunks []*rag.Chunk, emit bool) {
+	kase.What = what
+	n := len(chunks)
 	var got []rag.ExportBatch
 	var err error
 	p := hx.Safe(func() {
@@ -267,9 +317,15 @@ func checkBatches(c *hx.Ctx, kase caseID, r *hx.Rng, chunks []*rag.Chunk) {
 		parts = append(parts, fmt.Sprintf("%d:%d:%d:%d:%s", b.BatchNumber, b.StartIndex, b.EndIndex, b.ChunkCount, strings.Join(idx, "+")))
 	}
 	if okp && next != n {
-		okp, why = false, fmt.Sprintf("batches cover %d of %d chunks (size %d)", next, n, size)
+		okp, why = false, fmt.Sprintf("batches cover %d of %d chunks (size %d, callback invoked %d times)", next, n, size, len(got))
 	}
 	chk(c, "C14/batch-partition", okp, kase, func() string { return why })
+	// a batch size at least as large as the collection: everything in one batch
+	if size >= n && n > 0 {
+		chk(c, "C14/batch-size-covers-collection", len(got) == 1 && got[0].StartIndex == 0 && got[0].EndIndex == n && got[0].ChunkCount == n, kase, func() string {
+			return fmt.Sprintf("size %d >= %d chunks: expected one batch 0..%d, callback invoked %d times", size, n, n, len(got))
+		})
+	}
 	implOut := "none"
 	if len(parts) > 0 {
 		implOut = strings.Join(parts, ",")
@@ -283,9 +339,11 @@ func checkBatches(c *hx.Ctx, kase caseID, r *hx.Rng, chunks []*rag.Chunk) {
 	}
 	// each batch's Data is a complete export of exactly its slice
 	for k, b := range got {
-		checkExport(c, kase, fmt.Sprintf("batch %d/%d size %d", k, len(got), size), cfg, chunks[b.StartIndex:b.EndIndex], b.Data, nil, k == 0)
+		checkExport(c, kase, fmt.Sprintf("%s %d/%d size %d", what, k, len(got), size), cfg, chunks[b.StartIndex:b.EndIndex], b.Data, nil, emit && k == 0)
 	}
-	c.Count(fmt.Sprintf("batches=%d", min(len(got), 5)))
+	if emit {
+		c.Count(fmt.Sprintf("batches=%d", min(len(got), 5)))
+	}
 }
 
 // ---- stream ---------------------------------------------------------------------------------
@@ -1082,7 +1140,7 @@ func RunCase(c *hx.Ctx, idx int) {
 }
 
 func Run(c *hx.Ctx) {
-	c.Rep.Rule = "collections of 0–20 chunks whose ids, texts, titles, section names/paths, parent/child ids are concatenations of adversarial fragments (comma, tab, quotes, CR, LF, CRLF, NUL, control bytes, emoji, CJK, NBSP/NEL, JSON look-alikes, backslash-dot), valid UTF-8; every collection is exported by ToJSON/ToJSONL/ToCSV/ToTSV, by Exporter.ExportToString under 2 drawn configurations per format (library constructors + toggles of IncludeMetadata, MetadataFields nil/empty/subsets/unknown names, IncludeText, IncludeEmbeddings, FlattenMetadata, IncludeHeader, PrettyPrint, column names, delimiter), by BatchExporter (size 1..n+2), StreamExporter, Pinecone/Chroma/Weaviate with dyadic embeddings, and filtered by 4 drawn filters/chains + an arbitrary predicate; plus, per case, a second collection whose texts are words spelled with arbitrary members of each letter's Unicode case class (components of SimpleFold/ToLower/ToUpper/ToTitle: k/K/KELVIN SIGN, i/I/U+0130/U+0131, s/S/long s, a-ring/ANGSTROM, Greek, digraphs) searched with 4 keywords that are pieces of those texts re-spelled in another casing, incl. wholly on the ASCII / non-ASCII side of each class, alone and chained with another filter; per case also: BatchExporter runs under a drawn, sometimes unsupported configuration (unknown Format value, delimiter encoding/csv rejects) with a callback failing at a drawn invocation; a StreamExporter driven by 0-8 drawn WriteChunk/Close calls (repeated chunks, arbitrary index arguments, Close anywhere); Pinecone/Chroma/Weaviate/PrepareForVectorDB with nil/empty/short/long embedding lists (nil and empty vectors inside); the text of every JSON/JSONL export, stream and vector-database export compared byte for byte with the model; the model's JSON reader against encoding/json on those texts, on copies damaged by 1-3 byte edits from a JSON-significant alphabet and on hand-made texts (number grammar, literals, escapes, duplicate keys, trailing data); JSON string literals of arbitrary byte strings (ill-formed UTF-8, overlongs, surrogates, U+2028/9, controls, <>&); formatValue on nested maps; non-trivial = at least one chunk; distinct by canonical collection"
+	c.Rep.Rule = "collections of 0–20 chunks whose ids, texts, titles, section names/paths, parent/child ids are concatenations of adversarial fragments (comma, tab, quotes, CR, LF, CRLF, NUL, control bytes, emoji, CJK, NBSP/NEL, JSON look-alikes, backslash-dot), valid UTF-8; every collection is exported by ToJSON/ToJSONL/ToCSV/ToTSV, by Exporter.ExportToString under 2 drawn configurations per format (library constructors + toggles of IncludeMetadata, MetadataFields nil/empty/subsets/unknown names, IncludeText, IncludeEmbeddings, FlattenMetadata, IncludeHeader, PrettyPrint, column names, delimiter), by BatchExporter (size 1..n+2, and a second run with a size from the whole positive int range: just above n, around powers of two, the 32-bit limits, MaxInt/k and MaxInt-k, uniform and log-uniform draws), StreamExporter, Pinecone/Chroma/Weaviate with dyadic embeddings, and filtered by 4 drawn filters/chains + an arbitrary predicate; plus, per case, a second collection whose texts are words spelled with arbitrary members of each letter's Unicode case class (components of SimpleFold/ToLower/ToUpper/ToTitle: k/K/KELVIN SIGN, i/I/U+0130/U+0131, s/S/long s, a-ring/ANGSTROM, Greek, digraphs) searched with 4 keywords that are pieces of those texts re-spelled in another casing, incl. wholly on the ASCII / non-ASCII side of each class, alone and chained with another filter; per case also: BatchExporter runs under a drawn, sometimes unsupported configuration (unknown Format value, delimiter encoding/csv rejects) with a callback failing at a drawn invocation; a StreamExporter driven by 0-8 drawn WriteChunk/Close calls (repeated chunks, arbitrary index arguments, Close anywhere); Pinecone/Chroma/Weaviate/PrepareForVectorDB with nil/empty/short/long embedding lists (nil and empty vectors inside); the text of every JSON/JSONL export, stream and vector-database export compared byte for byte with the model; the model's JSON reader against encoding/json on those texts, on copies damaged by 1-3 byte edits from a JSON-significant alphabet and on hand-made texts (number grammar, literals, escapes, duplicate keys, trailing data); JSON string literals of arbitrary byte strings (ill-formed UTF-8, overlongs, surrogates, U+2028/9, controls, <>&); formatValue on nested maps; non-trivial = at least one chunk; distinct by canonical collection"
 	checkConfigs(c)
 	n := c.N(1200, 12000)
 	for i := 0; i < n; i++ {
